@@ -9,6 +9,7 @@ Theorem C13_depfile_reader_bounds : forall s, snd (parse_depfile_idx s) <= lengt
 Proof. exact C13_depfile_bounds. Qed.
 Print Assumptions C13_depfile_reader_bounds.
 
-Theorem C13_depfile_reader_total : forall s, parse_depfile s <> DOutOfFuel.
+Theorem C13_depfile_reader_total : forall s,
+  (exists outs ins, parse_depfile s = DOk outs ins) \/ (exists e, parse_depfile s = DErr e).
 Proof. exact C13_depfile_total. Qed.
 Print Assumptions C13_depfile_reader_total.
